@@ -31,6 +31,33 @@ def check_groupby_sorted(ctx, res: Result, dotted: str, rule="G-GROUPBY"):
                 res.unknown(rule, f, norm(n)[:140], "sorted-input", "the grouped iterable is a parameter: whether the callers hand it over sorted is not decided", loc(v.fi, n))
             else:
                 res.violation(rule, f, norm(n)[:140], "sorted-input", f"groupby runs over `{norm(it)[:80]}`, which is not sorted by the grouping key: records with the same key that are not adjacent form several groups (a later group overwrites / duplicates an earlier one)", loc(v.fi, n))
+    # the same grouping written with numpy: run boundaries of a key column (`np.flatnonzero(np.diff(keys)) + 1`) delimit the
+    # groups only when the records are sorted by that key
+    for n in ast.walk(v.fi.node):
+        if not (isinstance(n, ast.Call) and norm(n.func) in ("np.diff", "numpy.diff") and n.args):
+            continue
+        par = v.parent.get(id(n))
+        boundary = (isinstance(par, ast.Call) and norm(par.func) in ("np.flatnonzero", "np.nonzero", "np.where", "numpy.flatnonzero", "numpy.nonzero", "numpy.where", "np.argwhere")) or (isinstance(par, ast.Compare) and any(isinstance(c, ast.Constant) and c.value == 0 for c in par.comparators))
+        if isinstance(par, ast.Compare):
+            gp = v.parent.get(id(par))
+            boundary = boundary and isinstance(gp, ast.Call) and norm(gp.func) in ("np.flatnonzero", "np.nonzero", "np.where", "numpy.flatnonzero", "numpy.nonzero", "numpy.where", "np.argwhere")
+        if not boundary:
+            continue
+        col = v.inline(n.args[0], depth=2)
+        # the column is built by iterating a record list: np.fromiter((t for t, _ in L), ...) / np.array([r[0] for r in L])
+        src = None
+        if isinstance(col, ast.Call) and norm(col.func) in ("np.fromiter", "np.array", "np.asarray", "numpy.fromiter", "numpy.array", "numpy.asarray") and col.args and isinstance(col.args[0], (ast.GeneratorExp, ast.ListComp)) and len(col.args[0].generators) == 1:
+            src = col.args[0].generators[0].iter
+        if src is None:
+            continue
+        found += 1
+        it = v.inline(src)
+        if (isinstance(it, ast.Call) and norm(it.func) == "sorted") or getattr(v.kind(src), "sorted", False):
+            res.ok(rule, f, norm(n)[:140], "sorted-input", loc(v.fi, n))
+        elif isinstance(it, ast.Name) and it.id in {a.arg for a in v.fi.params}:
+            res.unknown(rule, f, norm(n)[:140], "sorted-input", "the grouped records are a parameter: whether the callers hand them over sorted is not decided", loc(v.fi, n))
+        else:
+            res.violation(rule, f, norm(n)[:140], "sorted-input", f"run boundaries of a key column taken from `{norm(it)[:80]}` are used as group boundaries, but those records are not sorted by the key: records with the same key that are not adjacent form several groups (a later group overwrites / duplicates an earlier one)", loc(v.fi, n))
     if not found:
         res.ok(rule, f, "no itertools.groupby", "scan", loc(v.fi, v.fi.node))
 
@@ -46,7 +73,35 @@ def check_fancy_augassign(ctx, res: Result, dotted: str, rule="N-FANCYAUG"):
     for n in walk_no_nested(v.fi.node):
         if isinstance(n, ast.AugAssign) and isinstance(n.target, ast.Subscript):
             idx = n.target.slice.elts if isinstance(n.target.slice, ast.Tuple) else [n.target.slice]
-            arrayish = [x for x in idx if (isinstance(x, ast.Subscript) and (isinstance(x.slice, ast.Slice) or (isinstance(x.slice, ast.Tuple) and any(isinstance(e, ast.Slice) for e in x.slice.elts)))) or (isinstance(x, ast.Name) and x.id in arrays)]
+
+            def is_arrayish(x, depth=0):
+                """an index that is itself an array: a slice of an array, an np constructor, or a reshaping of one of these"""
+                if isinstance(x, ast.Subscript) and (isinstance(x.slice, ast.Slice) or (isinstance(x.slice, ast.Tuple) and any(isinstance(e, ast.Slice) for e in x.slice.elts))):
+                    return True
+                if isinstance(x, ast.Call) and norm(x.func) in ("np.array", "np.asarray", "numpy.array", "numpy.asarray", "np.fromiter", "np.concatenate", "np.nonzero", "np.where", "np.arange", "np.repeat", "np.tile", "np.triu_indices", "np.tril_indices", "np.meshgrid", "np.indices"):
+                    return True
+                if isinstance(x, ast.Call) and isinstance(x.func, ast.Attribute) and x.func.attr in ("ravel", "flatten", "reshape", "astype", "copy", "squeeze", "transpose") and depth < 4:
+                    return is_arrayish(x.func.value, depth + 1)
+                if isinstance(x, ast.Attribute) and x.attr == "T" and depth < 4:
+                    return is_arrayish(x.value, depth + 1)
+                if isinstance(x, ast.Name):
+                    if x.id in arrays:
+                        return True
+                    if depth < 4:
+                        r_ = v.resolve(x)
+                        if r_ is not x:
+                            return is_arrayish(r_, depth + 1)
+                        # an element of a tuple assignment `rows, cols = A[:, i].ravel(), A[:, j].ravel()` / `i, j = np.triu_indices(..)`
+                        for d_ in walk_no_nested(v.fi.node):
+                            if isinstance(d_, ast.Assign) and len(d_.targets) == 1 and isinstance(d_.targets[0], (ast.Tuple, ast.List)):
+                                names_ = [t_.id if isinstance(t_, ast.Name) else None for t_ in d_.targets[0].elts]
+                                if x.id in names_:
+                                    if isinstance(d_.value, (ast.Tuple, ast.List)) and len(d_.value.elts) == len(names_):
+                                        return is_arrayish(d_.value.elts[names_.index(x.id)], depth + 1)
+                                    return is_arrayish(d_.value, depth + 1)
+                return False
+
+            arrayish = [x for x in idx if is_arrayish(x)]
             if arrayish:
                 found += 1
                 res.violation(rule, f, norm(n), "repeated-indices", f"`{norm(n.target)}` is indexed with arrays: `{type(n.op).__name__.lower()}=` through fancy indexing writes each repeated index pair once instead of accumulating (use np.add.at)", loc(v.fi, n))
@@ -60,7 +115,7 @@ def check_groupby_in_file(ctx, res: Result, relpath: str, rule="G-GROUPBY"):
     for q, fi in sorted(ctx.prog.functions.items()):
         if fi.module.relpath != relpath:
             continue
-        if any(isinstance(x, ast.Call) and norm(x.func) in ("groupby", "itertools.groupby") for x in walk_no_nested(fi.node)):
+        if any(isinstance(x, ast.Call) and norm(x.func) in ("groupby", "itertools.groupby", "np.diff", "numpy.diff") for x in walk_no_nested(fi.node)):
             n += 1
             check_groupby_sorted(ctx, res, fi, rule=rule)
     if not n:
